@@ -696,7 +696,9 @@ def check_wellformed(ctx, cname, tag, kwargs, g, route, rp_extra=None):
         over = eps + (1e-3 * abs(depth) if cname in RADIANS else 0.0)
         if top > depth + over:
             viol("deeper-than-depth", f"vertex {i} = ({z[i]}, {top}) is deeper than depth = {depth}")
-        elif top < depth - sag:
+        elif top < depth - sag - (1e-3 * abs(depth) if cname in RADIANS else 0.0):
+            # the same band on the other side for the generic class (its validation is two-sided: apex within 0.1 % of `depth`;
+            # first seen with the plug-in stream's perturbed over-determined parameter sets: apex 0.02 % short, quick seed 4)
             viol("depth-not-reached", f"the deepest vertex inside the usable width is {top}, depth = {depth} "
                  f"(discretisation allowance {sag})")
     else:
